@@ -152,9 +152,17 @@ func runC06(res *lib.Result, tier string, seed int64, args []string) error {
 					}
 				}
 				if nw > 1 {
-					// several assignment sites: which one is "the" definition depends on the rank rule of
-					// the third pass (function level, scope level, line) - C09's subject, not modelled here
-					res.Dist("global.multi-def(unmodelled)")
+					// several assignment sites: which one is "the" definition depends on the rank rule of the third pass
+					// (function level, scope level, line; C09's subject) and is not in the reference model — the answer is
+					// compared with Lua's binding directly: every occurrence of the global
+					spec := refsBy(occs, o.name, o.s, func(x scopeOcc) string { return x.s })
+					res.Count(fmt.Sprintf("%d/%d:%d", pi, o.sl, o.sc), false)
+					if is, ss := strings.Join(impl, " "), strings.Join(spec, " "); is == ss {
+						res.Dist("global.multi-def.exact")
+					} else {
+						res.HitKnown("C06-K4", "find-references on a global with several assignment sites: an assignment the rank rule does not count as the definition (e.g. the first one, inside a function, before a later top-level one) is missing from the answer", fmt.Sprintf("references answer [%s] but the occurrences of the global are [%s]\n%s", is, ss, caseText))
+						res.Dist("hit.C06-K4")
+					}
 					continue
 				}
 			}
